@@ -1,6 +1,6 @@
 (* AliasLemmas.v — proofs about coq/Alias.v (C13). *)
 From PV Require Import Base Crit gen.TermsTable Terms TermsCorr gen.C13Table Alias.
-Local Open Scope list_scope.
+
 
 Scheme term_mindA := Induction for term Sort Prop
   with tlist_mindA := Induction for tlist Sort Prop
@@ -46,8 +46,6 @@ Lemma render_whens_cons c cr v r :
   render_whens c (WCons cr v r) =
   (a <- render c cr ;; b <- render c v ;; rest <- render_whens c r ;; Ok (("WHEN " ++ a ++ " THEN " ++ b) :: rest)).
 Proof. reflexivity. Qed.
-Definition else_text (c : ctx) (els : oterm) : res string :=
-  match els with ONone => Ok "" | OSome t' => s <- render c t' ;; Ok (" ELSE " ++ s) end.
 Lemma render_case c ws els a :
   render c (TCase ws els a) =
   match ws with
@@ -154,8 +152,6 @@ Proof. apply strip_idem_all. Qed.
 (* 2. THEOREM A: in the select list (with_alias true) a Consumes constructor over quiet children renders as the
       alias-free expression followed by format_alias_sql's suffix, once                                 *)
 (* ------------------------------------------------------------------------------------------------ *)
-Definition select_spec (c : ctx) (t : term) : res string :=
-  s <- render (set_wa c false) (strip_all t) ;; Ok (fmt_alias s (alias_of t) (reach_q c t) (reach_aq c t) (askw c)).
 
 Theorem consumes_render : forall t c, wa c = true -> consumes t = true -> quiet t = true ->
   render c t = select_spec c t.
@@ -195,27 +191,7 @@ Qed.
 (* ------------------------------------------------------------------------------------------------ *)
 (* 3. render follows alias_behaviour, for EVERY term (no fragment): the general per-constructor law    *)
 (* ------------------------------------------------------------------------------------------------ *)
-(* [set_alias t a]: the same node with another alias *)
-Definition set_alias (t : term) (a : option string) : term :=
-  match t with
-  | TField n tb _ => TField n tb a | TValS s _ => TValS s a | TValI z _ => TValI z a | TValB b sl _ => TValB b sl a
-  | TValNone _ => TValNone a | TValRaw x _ => TValRaw x a | TLit x _ => TLit x a
-  | TArith op l r _ => TArith op l r a | TBasic cm l r _ => TBasic cm l r a | TCplx bo l r _ => TCplx bo l r a
-  | TIn t' c n _ => TIn t' c n a | TBetween t' lo hi _ => TBetween t' lo hi a | TBitAnd t' v _ => TBitAnd t' v a
-  | TIsNull t' _ => TIsNull t' a | TNotNull t' _ => TNotNull t' a | TNot t' _ => TNot t' a | TAll t' _ => TAll t' a
-  | TCase ws els _ => TCase ws els a | TFunc n args sp _ => TFunc n args sp a
-  | TTuple vs _ => TTuple vs a | TArray vs _ => TArray vs a | TSub c tb _ => TSub c tb a
-  | TStar _ | TParam _ | TNeg _ | TEmpty => t
-  end.
 
-Definition behaviour_spec (c : ctx) (t : term) : res string :=
-  let base := render c (set_alias t None) in
-  let sfx := s <- base ;; Ok (fmt_alias s (alias_of t) (reach_q c t) (reach_aq c t) (askw c)) in
-  match alias_behaviour t with
-  | Consumes _ _ => if wa c then sfx else base
-  | Always => sfx
-  | Never => base
-  end.
 
 Lemma bind_ok_id {A} (r : res A) : (x <- r ;; Ok x) = r.
 Proof. destruct r; reflexivity. Qed.
@@ -248,25 +224,11 @@ Proof. vm_compute. reflexivity. Qed.
 Lemma class_contexts_ok : forall c, class_ctx_ok c = true.
 Proof. destruct c; vm_compute; reflexivity. Qed.
 
-(* consequences of class_contexts_ok in usable form *)
-Lemma ctx_facts c j : class_ctx_ok c = true ->
+(* the same facts in usable form (again by computation over the complete extracted table) *)
+Lemma ctx_facts c j :
   wa (x_ctx_at c PSelect j) = true /\ wa (x_ctx_at c POn j) = false /\ wa (x_ctx_at c PWhere j) = false
   /\ wa (x_ctx_at c PGroup j) = false /\ wa (x_ctx_at c PHaving j) = false /\ wa (x_ctx_at c POrder j) = false
   /\ conv_quote (x_ctx_at c PSelect j) = spec_alias_quote c /\ askw (x_ctx_at c PSelect j) = spec_as_keyword c
   /\ conv_quote (x_ctx_at c PGroup j) = spec_alias_quote c /\ conv_quote (x_ctx_at c POrder j) = spec_alias_quote c
   /\ x_group_ref c = spec_group_alias_allowed c /\ x_order_ref c = spec_order_alias_allowed c.
-Proof.
-  unfold class_ctx_ok. intros H. split_and H. cbn [forallb] in H. split_and H.
-  assert (X : forall b, (if b then true else false) = true -> b = true) by (intros []; auto).
-  destruct j.
-  - clear H. split_and Hq2.
-    repeat match goal with H : negb _ = true |- _ => apply negb_true_iff in H end.
-    repeat match goal with H : String.eqb _ _ = true |- _ => apply String.eqb_eq in H end.
-    repeat match goal with H : Bool.eqb _ _ = true |- _ => apply eqb_prop in H end.
-    repeat split; assumption.
-  - clear Hq2 Hq1. split_and H.
-    repeat match goal with H : negb _ = true |- _ => apply negb_true_iff in H end.
-    repeat match goal with H : String.eqb _ _ = true |- _ => apply String.eqb_eq in H end.
-    repeat match goal with H : Bool.eqb _ _ = true |- _ => apply eqb_prop in H end.
-    repeat split; assumption.
-Qed.
+Proof. destruct c, j; vm_compute; repeat split. Qed.
